@@ -1266,7 +1266,7 @@ def main(tier):
         shapes[k] = shapes.get(k, 0) + 1
     ck.samples = [{"argv": impls[i]["argv"], "exit": impls[i]["rc"], "project": cases[i]["proj"].name,
                    "stderr_tail": impls[i]["stderr"].strip().splitlines()[-1:] if impls[i]["stderr"].strip() else []}
-                  for i in (0, 3, 20, 40, min(len(cases) - 1, n_core - 5), n_list0 - 1, n_list0 + 60, len(cases) - 1) if i < len(cases)]
+                  for i in (0, 3, 20, 40, min(len(cases) - 1, n_core - 5), n_list0 - 1, n_list0 + 60, n_sib0 - 1, n_sib0 + 7, len(cases) - 1) if i < len(cases)]
     ck.cov.update({
         "evaluations": len(cases) + len(all_projects) + 1,
         "distinct_nontrivial": len(seen_inputs),
@@ -1277,7 +1277,14 @@ def main(tier):
                 "directory/file pattern of 3 targets, a missing target in every position; for each list the violating code in each "
                 "file of the tree in turn, in none and in all; relative, ./, absolute, trailing-slash and dir/../ spellings, from "
                 "inside and outside the tree; judged against the spec / model on the union of the selected files and against "
-                "`pyscn analyze` run on the very same targets",
+                "`pyscn analyze` run on the very same targets. Sibling targets whose names are string prefixes of each other (app / "
+                "app_v2 / app.old / application, next to an unrelated name and a real sub-directory): every ordered pair short/long in "
+                "every spelling (relative, ./, absolute, trailing slash, dir/../, absolute + relative mixed both ways, from outside the "
+                "tree), longer lists, repeated and really nested targets, the import cycle in the shorter-named directory / in the "
+                "longer-named ones / in every one / in none, --max-cycles at and one below the number of cycles; judged against the "
+                "project roots Cli/GateRoots.v computes from the cleaned path components (dropped only if it IS an earlier target or "
+                "lies INSIDE another one; cross-checked against the same rule read in Python), the cycles of the whole-tree analysis "
+                "below those roots, and `pyscn analyze --select deps` on the very same targets",
         "input_distribution": {"core_boundary_cases": n_core, "random_cases": n_list0 - n_core, "projects": len(all_projects),
                                "random_projects": len(rprojs), "passed": verdicts["pass"], "failed": verdicts["fail"],
                                "config_in_target": sum(1 for c in cases if c["cfg"] is not None),
@@ -1296,6 +1303,17 @@ def main(tier):
                                    1 for c in lcases if "d" in [ATOMS[t][1] for t in c["targets"][:-1]] and ATOMS[c["targets"][-1]][1] == "f"),
                                "target_list_repeated_or_nested": sum(1 for c in lcases if list_overlap(c)),
                                "target_list_failing_gate": sum(1 for c, i in zip(cases, impls) if c["layout"] == "list" and i["rc"] != 0),
+                               "sibling_prefix_cases": len(scases),
+                               "sibling_prefix_target_lists": len({c["targets"] for c in scases}),
+                               "sibling_prefix_ordered_pairs_short_long": len({c["targets"] for c in scases if len(c["targets"]) == 2 and
+                                                                               SIB_SHORT in c["targets"] and set(c["targets"]) & set(SIB_LONG)}),
+                               "sibling_prefix_cycle_placements": {n: sum(1 for c in scases if c["proj"].name == "sib_" + n) for n in SIB_PLACEMENTS},
+                               "sibling_prefix_spellings": {m: sum(1 for c in scases if m in c["spell"]) for m in SIB_SPELLINGS},
+                               "sibling_prefix_mixed_absolute_relative": sum(1 for c in scases if "abs" in c["spell"] and len(set(c["spell"])) > 1),
+                               "sibling_prefix_cwd_outside": sum(1 for c in scases if c["cwd_out"]),
+                               "sibling_prefix_with_analyze_on_same_targets": sum(1 for c in scases if c["same"]),
+                               "sibling_prefix_target_dropped_by_model": sum(1 for c in scases if len(c["roots"]) < len(c["targets"])),
+                               "sibling_prefix_failing_gate": sum(1 for c, i in zip(cases, impls) if c["layout"] == "sib" and i["rc"] != 0),
                                "analysis_cannot_run": sum(1 for c in cases if c["proj"].empty or c["target_missing"])},
         "disagreements_checked": n_spec_bad + n_line_bad + n_tie_bad + n_known,
         "spec_disagreements": n_spec_bad, "line_disagreements": n_line_bad, "model_disagreements": n_tie_bad,
@@ -1310,6 +1328,9 @@ def main(tier):
                    "--min-severity info` on the same files; clone pairs and mock-data findings are read from check's own output",
                    "target lists: which files a list of targets selects (a directory = every .py file below it, a file = itself, each "
                    "file once) is computed by the harness and cross-checked per case against `pyscn analyze` on the same targets",
+                   "sibling targets: the cleaned absolute path of a target (filepath.Abs) is computed by the harness with os.path.normpath; "
+                   "the project roots come from Cli/GateRoots.v dependency_project_roots (tied to dependencyProjectRoots by the decision "
+                   "table of Tie/GateTie.v, whose grid holds prefix-sharing sibling names too)",
                    "stderr parser of harness/c19.py"]
     ck.finish(assumptions=["cyclomatic complexities are >= 1", "--max-cycles is not negative",
                            "no pyscn configuration file above the work directory"])
